@@ -7,6 +7,7 @@ from . import front
 from .values import *  # noqa
 from .state import State, Fork, Unsupported, Ob
 from .expr import Evaluator, I, as_int, as_real, is_num, const_int, zmin, zmax
+from .npth import NumpyTheory
 from .contract import REGISTRY, BY_NAME, Contract, CLASSES, UFUNCS
 from . import values as _values
 values_ctr = _values._ctr
@@ -57,7 +58,7 @@ def _has_quant(t):
     return False
 
 
-class Engine(Evaluator):
+class Engine(NumpyTheory, Evaluator):
     BUILTINS = {'len', 'min', 'max', 'abs', 'int', 'range', 'list', 'tuple', 'isinstance', 'slice', 'all', 'any',
                 'implies', 'old', 'enumerate', 'zip', 'ceil', 'floor', 'float', 'bool', 'str', 'dict', 'getattr',
                 'round', 'iff', 'sorted', 'ite', 'map', 'super', 'fresh_obj', 'same_fields_except', 'is_fresh', 'psum', 'ops_fold', 'op_row', 'nblocks', 'flat', 'elems', 'is_list', 'is_none', 'smul', 'smul_def'}
@@ -287,6 +288,8 @@ class Engine(Evaluator):
                 return self.apply_contract(self.pick_variant(f.extra, args, kw, st), args, kw, st, node)
             if f.kind == 'method':
                 return self.apply_contract(self.pick_variant(f.extra, [f.self_val] + args, kw, st), [f.self_val] + args, kw, st, node)
+            if f.kind == 'ndmethod':
+                return self.nd_method(f.self_val, f.name, args, kw, st, node)
             if f.kind == 'nddunder':
                 # ndarray.__op__(arg) / ndarray.__op__(): row-wise (NumPy facts E1-E3, assumed; definition of op_row)
                 self.assumed_used.add('<lib>::ndarray.__op__ is row-wise (E1-E3)')
@@ -365,6 +368,9 @@ class Engine(Evaluator):
             r = st.heap.alloc_list(c.etype, c.length, c.leaves)
             return VList(r.ref, nd=True)
         h = self.module_hook(name, args, kw, st, node)
+        if h is not None:
+            return h
+        h = self.np_call(name, args, kw, st, node)
         if h is not None:
             return h
         raise Unsupported('library call %s (line %s)' % (name, getattr(node, 'lineno', '?')))
@@ -1074,6 +1080,9 @@ class Engine(Evaluator):
             if isinstance(base, VList) and isinstance(tgt.slice, ast.Tuple):
                 if not self.setitem_hook(base, tgt, val, st):
                     raise Unsupported('multi-dimensional subscript assignment on %r' % (base,))
+            elif isinstance(base, VList) and not isinstance(tgt.slice, ast.Slice) and isinstance(self._peek(tgt.slice, st), VList):
+                if not self.nd_setitem(base, self._peek(tgt.slice, st), val, st, tgt):
+                    raise Unsupported('array-index assignment on %r' % (base,))
             elif isinstance(base, VList) and not isinstance(tgt.slice, ast.Slice):
                 idx = self.ev(tgt.slice, st)
                 self.ensure_etype(base, val, st)
@@ -1084,6 +1093,14 @@ class Engine(Evaluator):
                     raise Unsupported('subscript assignment on %r' % (base,))
         else:
             raise Unsupported('assignment target %s' % type(tgt).__name__)
+
+    def _peek(self, node, st):
+        """evaluate an index expression once per target (cached on the node for this statement attempt)"""
+        key = (id(node), id(st))
+        c = getattr(self, '_peek_cache', None)
+        if c is None or c[0] != key:
+            self._peek_cache = (key, self.ev(node, st))
+        return self._peek_cache[1]
 
     def setitem_hook(self, base, tgt, val, st):
         # rows[:, mask] = 0 on a block of opaque rows: every row gets the masked columns zeroed (row-wise op 'zero_cols')
